@@ -3,6 +3,7 @@ package mc
 import (
 	"encoding/json"
 	"fmt"
+	"strings"
 )
 
 func jsonUnmarshal(b []byte, v any) error { return json.Unmarshal(b, v) }
@@ -136,7 +137,8 @@ func setGroup(by, pre, cont, post, def **ChecksSpec, g string, c *ChecksSpec) {
 }
 
 // FamilyChk: one block x 2 sequences x 1 action (c=2); every subset of the five check groups at plan level
-// (block level empty) and at block level (plan level empty); no failing group or exactly one failing group.
+// (block level empty) and at block level (plan level empty); every pass/fail assignment to the present groups with
+// at most two failing groups (quick) or any number (thorough).
 // level2 adds, for every single group, the combination "group at plan level and the same group at block level".
 func FamilyChk(tier string) []*Scenario {
 	var out []*Scenario
@@ -149,7 +151,22 @@ func FamilyChk(tier string) []*Scenario {
 					present = append(present, g)
 				}
 			}
-			for fi := -1; fi < len(present); fi++ {
+			maxFail := 2
+			if tier == "thorough" {
+				maxFail = 5
+			}
+			for fm := 0; fm < 1<<len(present); fm++ {
+				nf := 0
+				var failNames []string
+				for gi := range present {
+					if fm&(1<<gi) != 0 {
+						nf++
+						failNames = append(failNames, present[gi])
+					}
+				}
+				if nf > maxFail {
+					continue
+				}
 				ps := PlanSpec{Blocks: []BlockSpec{{Seqs: okSeqs(2, 1), Conc: 2}, {Seqs: okSeqs(1, 1), Conc: 1}}}
 				b := &ps.Blocks[0]
 				for gi, g := range present {
@@ -157,7 +174,7 @@ func FamilyChk(tier string) []*Scenario {
 					for a := 0; a < nact; a++ {
 						acts = append(acts, A())
 					}
-					if gi == fi {
+					if fm&(1<<gi) != 0 {
 						acts[0] = A(Perm)
 					}
 					c := &ChecksSpec{Actions: acts}
@@ -172,8 +189,8 @@ func FamilyChk(tier string) []*Scenario {
 					lv = "block"
 				}
 				failName := "none"
-				if fi >= 0 {
-					failName = present[fi]
+				if nf > 0 {
+					failName = strings.Join(failNames, "+")
 				}
 				out = append(out, &Scenario{Family: "F-chk", Name: fmt.Sprintf("chk-%s-m%02d-f%s", lv, mask, failName), Plans: []PlanSpec{ps}})
 			}
